@@ -19,10 +19,18 @@ SHARDS = {"quick": 1, "thorough": 16}
 WATCHDOG = {"quick": 900, "thorough": 3000}
 
 
+NUMPY_COSTS = [False]
+
+
 def _ind(vector, costs_signed, cls=None):
     from artap.individual import Individual
+    import numpy as np
     ind = (cls or Individual)(list(vector))
-    ind.costs_signed = list(costs_signed)
+    if NUMPY_COSTS[0]:
+        # what calc_signed_costs really stores: numpy.float64 objectives followed by a Python bool/number marker
+        ind.costs_signed = [np.float64(c) for c in costs_signed[:-1]] + [costs_signed[-1]]
+    else:
+        ind.costs_signed = list(costs_signed)
     ind.costs = list(costs_signed[:-1])
     return ind
 
@@ -209,6 +217,9 @@ def cases(ctx):
 
 def run_case(ctx, name, params):
     from artap import operators
+    NUMPY_COSTS[0] = (params.get("seed", 0) % 3 == 0)
+    if NUMPY_COSTS[0]:
+        ctx.count("cases_with_numpy_typed_costs")
     if name == "crowding":
         r = ctx.rng("cd", params["seed"])
         n = r.choice([1, 2, 3, 3, 4, 5, 8, 13, 30])
